@@ -507,6 +507,12 @@ def gen_case(rng, kind):
     """One history: build the instance, then 1-12 route operations with queries and (sometimes)
     customers and arcs appended in between."""
     cap, init, nodes, arcs, primary = design(rng, kind)
+    if rng.random() < 0.15:
+        # far from the clock origin: every customer window and every leg out of the depot is moved by t0, so each
+        # route keeps its validity while all arrival times are large and may miss a window by one unit only
+        t0 = 1 << rng.choice([17, 20, 24])
+        nodes = [nodes[0]] + [(nm_, dem_, lo_ + t0, hi_ if hi_ == INF else hi_ + t0) for (nm_, dem_, lo_, hi_) in nodes[1:]]
+        arcs = [(i, j, (t + t0 if (i == 0 and j != 0) else t), c) for (i, j, t, c) in arcs]
     n = len(nodes)
     names = [x[0] for x in nodes]
     late_nodes = []
